@@ -366,30 +366,34 @@ def rule_clone_decision_from_input(chk, rid):
     cfg = ea.cfg
     call = ea.cmd_call
     a0 = call.args[0]
-    if not isinstance(a0, ast.Name):
-        chk.ob(rid, ea.C, isinstance(a0, ast.Call) and call_tail(a0) == "clone", "command receives a clone unconditionally", call, ea.mod, key="decision")
+    from ..lib import conditional_values
+    alts = conditional_values(cfg, a0, cfg.node_of(call))
+    raw = [(v, f) for v, f in alts if U(v) == ea.statevar]
+    if not raw:
+        ok = all(isinstance(v, ast.Call) and call_tail(v) == "clone" for v, _ in alts)
+        chk.ob(rid, ea.C, ok, "command receives a clone unconditionally", call, ea.mod, key="decision")
         return
-    for d in cfg.reaching_defs(a0.id, cfg.node_of(call)):
-        if d == cfg.entry:
-            continue
-        v = assigned_value(cfg, d, a0.id)
-        if isinstance(v, ast.IfExp):
-            names = [x.id for x in ast.walk(v.test) if isinstance(x, ast.Name)]
-            ok = True
-            why = ""
-            for nm in names:
-                for dd in cfg.reaching_defs(nm, d):
-                    if dd == cfg.entry:
-                        continue
-                    vv = assigned_value(cfg, dd, nm)
-                    if U(vv) != f"{ea.statevar}.is_volatile()":
-                        ok = False
-                        why = f"`{nm}` = `{U(vv)}`"
-            if not names and U(v.test) != f"{ea.statevar}.is_volatile()":
-                ok = False
-                why = U(v.test)
-            chk.ob(rid, ea.C, ok, "clone decision depends on the input state's volatility only" if ok else
-                   f"clone decision depends on {why}: with extra parameters an in-place command mutates the caller's / cached object", v, ea.mod, key="decision")
+    def_nodes = [d for d in cfg.reaching_defs(a0.id, cfg.node_of(call)) if d != cfg.entry] if isinstance(a0, ast.Name) else [cfg.node_of(call)]
+    ok, why = True, ""
+    for v, facts in raw:
+        vol = [(t, p) for t, p in facts if "volatile" in t and p is True]
+        if not vol:
+            ok, why = False, "no volatility test at all"
+        for t, p in vol:
+            if t == f"{ea.statevar}.is_volatile()":
+                continue
+            if t.isidentifier():
+                for d in def_nodes:
+                    for dd in cfg.reaching_defs(t, d):
+                        if dd == cfg.entry:
+                            continue
+                        vv = assigned_value(cfg, dd, t)
+                        if vv is None or U(vv) != f"{ea.statevar}.is_volatile()":
+                            ok, why = False, f"`{t}` = `{U(vv) if vv is not None else '?'}`"
+            else:
+                ok, why = False, f"`{t}`"
+    chk.ob(rid, ea.C, ok, "clone decision depends on the input state's volatility only" if ok else
+           f"clone decision depends on {why}: with extra parameters an in-place command mutates the caller's / cached object", call, ea.mod, key="decision")
 
 
 # --------------------------------------------------------------------------- C11 element receivers / qualname
